@@ -270,6 +270,9 @@ func check(c *pbt.Ctx, cs Case) {
 	if d := cmp(got, want, "$"); d != "" {
 		c.Failf("wrong-projection", "MarshalTo output is not the projection: %s\n got  %s\n want %s", d, got.Short(), want.Short())
 	}
+	if d := tm.DiffEmptyTypes(want, got); d != "" {
+		c.Failf("empty-container-types", "MarshalTo output: an empty container is not of the declared type (want vs got): %s", d)
+	}
 	if d := orderOK(cs.V, got, cs.Src, cs.U); d != "" {
 		c.Failf("wrong-order", "%s", d)
 	}
